@@ -755,6 +755,41 @@ def main():
           info, real_stats=True, directed='blockwise-tied-weight', only='C15:',
           custom=lambda mb_, ob_, inputs=inputs: blockwise_check(mb_, ob_, inputs))
 
+  def directed_reused_stats(n):
+    """ONE calibration result handed to two quantize() calls: first a full
+    static recipe (fixed-range outputs of SOFTMAX / LOGISTIC / TANH are planned),
+    then a recipe that quantizes other operators only; the parameters of the
+    second model must follow the statistics AS CALIBRATED (a pristine copy taken
+    before the first call)"""
+    done = tries = 0
+    while done < n and tries < 20 * n:
+      tries += 1
+      mb, info = gg.gen_model(rng, n_subgraphs=1, max_ops=rng.choice([2, 3, 5]),
+                              op_weights=['LOGISTIC', 'TANH', 'SOFTMAX', 'FULLY_CONNECTED', 'FULLY_CONNECTED', 'ADD', 'MUL'])
+      keys = [k_ for k_, _ in gr.model_scopes(mb)]
+      fixed = [k_ for k_ in keys if k_ in FIXED]
+      other = sorted(set(k_ for k_ in keys if k_ and k_ not in FIXED))
+      if not fixed or not other:
+        continue
+      ncfg = gr.named_configs()
+      q1 = quantizer.Quantizer(bytearray(mb))
+      if not gr.apply_rules(q1, [('.*', '*', ncfg['a8w8'][0], 'a8w8')]):
+        continue
+      stats = gr.own_stats(mb, gg.random_inputs(mb, rng, 1))
+      pristine = copy.deepcopy(stats)
+      try:
+        q1.quantize(stats)                      # the caller's object itself
+      except Exception:  # pylint: disable=broad-except
+        pass
+      qt = quantizer.Quantizer(bytearray(mb))
+      cname = rng.choice(['a8w8', 'a8sw8'])
+      desc = gr.apply_rules(qt, [('.*', rng.choice(other), ncfg[cname][0], cname)])
+      if not desc:
+        continue
+      done += 1
+      yield mb, qt, stats, desc, dict(info, real_stats=True, directed='calibration-result-reused-by-a-second-quantize',
+                                      check_stats=pristine)
+
   def directed_same_name_sharers(n):
     """constants tied across subgraphs whose tensors ALSO carry the same name
     (the layer exported under two signatures keeps its variable name) x one
@@ -803,7 +838,8 @@ def main():
       directed_zp0(300 if tier == 'thorough' else 30),
       directed_unknown_reader(100 if tier == 'thorough' else 12),
       directed_unsupported_star(60 if tier == 'thorough' else 8),
-      directed_blockwise_tied(60 if tier == 'thorough' else 9)):
+      directed_blockwise_tied(60 if tier == 'thorough' else 9),
+      directed_reused_stats(100 if tier == 'thorough' else 10)):
     dist['cases'] += 1
     if info.get('directed'):
       dist['directed:' + info['directed']] += 1
@@ -817,7 +853,7 @@ def main():
       if info.get('custom'):
         bad = info['custom'](mb, res.quantized_model)
       else:
-        bad = check_case(qt, mb, res.quantized_model, stats if info.get('real_stats') else stats, desc)
+        bad = check_case(qt, mb, res.quantized_model, info.get('check_stats', stats), desc)
     except Exception as e:  # pylint: disable=broad-except
       import traceback
       bad = [{'key': 'HARNESS:error', 'what': traceback.format_exc()[-600:]}]
